@@ -23,7 +23,7 @@ Theorem roundtrip_indep_unconditional : forall sf sm sh, states_ok sf sm sh ->
       read_session dstate dctx_init fd_info fd_dec true junk file sizes = FOk (chop (concat bufs) sizes).
 Proof.
   intros sf sm sh Hst p mw bufs sizes junk _.
-  exact (roundtrip_discharged (blk_indep 0 sf sm sh) (indep_contract 0 sf sm sh Hst) (blk_indep_bytes 0 sf sm sh) (Some p) mw bufs sizes junk).
+  exact (roundtrip_discharged (blk_indep 0 sf sm sh) (indep_contract 0 sf sm sh Hst) (indep_bytes 0 sf sm sh Hst) (Some p) mw bufs sizes junk).
 Qed.
 
 (* any block mode (lz4file.c's default preferences are LINKED blocks): LZ4_compress_fast_continue, Proofs.BlkInstFastLinked *)
@@ -38,7 +38,7 @@ Theorem roundtrip_stream_unconditional : forall st, (forall n, lorc_ok (st n)) -
       read_session dstate dctx_init fd_info fd_dec true junk file sizes = FOk (chop (concat bufs) sizes).
 Proof.
   intros st Hst.
-  exact (roundtrip_discharged (blk_fast_linked st 0) (blk_fast_linked_contract st 0 Hst) (blk_fast_linked_bytes st 0)).
+  exact (roundtrip_discharged (blk_fast_linked st 0) (blk_fast_linked_contract st 0 Hst) (blk_fast_linked_bytes st 0 Hst)).
 Qed.
 
 Print Assumptions roundtrip_indep_unconditional.
